@@ -257,6 +257,9 @@ POOLS = {
     "hostile_fmt": ASCII_WORDS + HOSTILE_FMT * 2 + UNICODE,
     "fs": ASCII_WORDS * 4 + [b"f.go", b"g.go", b"Makefile", b"x.md", b"o", b"lib.o"],
     "fs_hostile": ASCII_WORDS * 3 + HOSTILE_FS,
+    # sibling names that are prefixes of each other, continued by bytes sorting below and above '/'
+    "fs_prefix": [b"cmd", b"cmd-old", b"cmd.md", b"cmd_x", b"cmd0", b"cmd x", b"cmd+", b"a", b"a-b", b"a.b", b"a b", b"ab", b"a_b", b"a!",
+                  b"src", b"src.go", b"src-gen", b"d", b"d.d", b"x.go", b"x.go.bak", b"Makefile", b"Makefile.in"],
 }
 
 
@@ -314,6 +317,20 @@ def enum_forests(n, names=(b"a", b"b")):
                 items.pop()
 
     rec([], 0, n)
+    return out
+
+
+def wide_forests(kmax=14):
+    """a parent (root or inner node) with k distinct children followed by a repeat of the j-th one, for every j <= k <= kmax:
+    merging must work at every position of a wide node (lookup structures with size thresholds)"""
+    out = []
+    for k in range(1, kmax + 1):
+        for j in range(1, k + 1):
+            kids = [(2, b"c%d" % i) for i in range(1, k + 1)]
+            out.append([(1, b"r")] + kids + [(2, b"c%d" % j), (3, b"g")])
+            if k % 3 == 0:
+                inner = [(3, b"c%d" % i) for i in range(1, k + 1)]
+                out.append([(1, b"r"), (2, b"p")] + inner + [(3, b"c%d" % j), (4, b"g"), (2, b"q"), (1, b"s")])
     return out
 
 
